@@ -2,6 +2,112 @@
    when the model was last validated against the code). Compared with the regenerated VGen.SkelC09 in VProps/PinC09.lean. -/
 namespace VPins.C09
 
+def event_builder_EventBuilder_AddAuthEvents : List String := [
+  "func func(provider AuthEventProvider) error",
+  "eventsNeeded, err := StateNeededForProtoEvent(&ProtoEvent{Type: eb.Type, StateKey: eb.StateKey, Content: eb.Content, SenderID: eb.SenderID, Version: eb.version})",
+  "if err != nil {",
+  "return err",
+  "}",
+  "refs, err := eventsNeeded.AuthEventReferences(provider)",
+  "if err != nil {",
+  "return err",
+  "}",
+  "if eb.version.DomainlessRoomIDs() && eb.RoomID != \"\" {",
+  "createEventID := \"$\" + eb.RoomID[1:]",
+  "ids := make([]string, 0, len(refs))",
+  "for _, id := range refs {",
+  "if id == createEventID {",
+  "continue",
+  "}",
+  "ids = append(ids, id)",
+  "}",
+  "eb.AuthEvents = ids",
+  "return nil",
+  "}",
+  "eb.AuthEvents = refs",
+  "return nil"
+]
+
+def event_builder_EventBuilder_Build : List String := [
+  "func func(now time.Time, origin spec.ServerName, keyID KeyID, privateKey ed25519.PrivateKey) (result PDU, err error)",
+  "if eb.version == nil {",
+  "return nil, fmt.Errorf(\"EventBuilder.Build: unknown version, did you create this via NewEventBuilder?\")",
+  "}",
+  "eventFormat := eb.version.EventFormat()",
+  "eventIDFormat := eb.version.EventIDFormat()",
+  "var eventStruct struct { EventBuilder EventID string `json:\"event_id\"` OriginServerTS spec.Timestamp `json:\"origin_server_ts\"` Origin spec.ServerName `json:\"origin\"` PrevState *[ // This key is either absent or an empty list. // If it is absent then the pointer is nil and omitempty removes it. // Otherwise it points to an empty list and omitempty keeps it. ]eventReference `json:\"prev_state,omitempty\"` }",
+  "eventStruct.EventBuilder = *eb",
+  "if eventIDFormat == EventIDFormatV1 {",
+  "eventStruct.EventID = fmt.Sprintf(\"$%s:%s\", util.RandomString(16), origin)",
+  "}",
+  "if eb.version.DomainlessRoomIDs() && eb.Type == spec.MRoomCreate && eb.StateKey != nil && eb.RoomID != \"\" {",
+  "return nil, fmt.Errorf(\"EventBuilder.Build: create event must have no room ID but %s was provided\", eb.RoomID)",
+  "}",
+  "eventStruct.OriginServerTS = spec.AsTimestamp(now)",
+  "eventStruct.Origin = origin",
+  "switch eventFormat {",
+  "case EventFormatV1:",
+  "eventStruct.PrevEvents = toEventReference(eventStruct.PrevEvents)",
+  "eventStruct.AuthEvents = toEventReference(eventStruct.AuthEvents)",
+  "case EventFormatV2:",
+  "switch prevEvents := eventStruct.PrevEvents.(type) { case []string: eventStruct.PrevEvents = prevEvents case nil: eventStruct.PrevEvents = []string{} }",
+  "switch authEvents := eventStruct.AuthEvents.(type) { case []string: eventStruct.AuthEvents = authEvents case nil: eventStruct.AuthEvents = []string{} }",
+  "}",
+  "if eventStruct.StateKey != nil {",
+  "eventStruct.PrevState = &emptyEventReferenceList",
+  "}",
+  "var eventJSON []byte",
+  "if eventJSON, err = json.Marshal(&eventStruct); err != nil {",
+  "return",
+  "}",
+  "if eventFormat == EventFormatV2 {",
+  "if eventJSON, err = sjson.DeleteBytes(eventJSON, \"event_id\"); err != nil {",
+  "return",
+  "}",
+  "}",
+  "if eventJSON, err = addContentHashesToEvent(eventJSON); err != nil {",
+  "return",
+  "}",
+  "if eventJSON, err = signEvent(string(origin), keyID, privateKey, eventJSON, eb.version.Version()); err != nil {",
+  "return",
+  "}",
+  "if eventJSON, err = EnforcedCanonicalJSON(eventJSON, eb.version.Version()); err != nil {",
+  "return",
+  "}",
+  "res, err := eb.version.NewEventFromTrustedJSON(eventJSON, false)",
+  "if err != nil {",
+  "return nil, err",
+  "}",
+  "err = CheckFields(res)",
+  "return res, err"
+]
+
+def event_builder_EventBuilder_SetContent : List String := [
+  "func func(content interface{}) (err error)",
+  "eb.Content, err = json.Marshal(content)",
+  "return"
+]
+
+def event_builder_EventBuilder_SetUnsigned : List String := [
+  "func func(unsigned interface{}) (err error)",
+  "eb.Unsigned, err = json.Marshal(unsigned)",
+  "return"
+]
+
+def event_builder__eventHashFromEventID : List String := [
+  "func func(eventID string) spec.Base64Bytes",
+  "var sha spec.Base64Bytes",
+  "if err := sha.Decode(eventID[1:]); err != nil {",
+  "return sha",
+  "}",
+  "return sha"
+]
+
+def event_builder__toEventReference : List String := [
+  "func func(data any) []eventReference",
+  "switch evs := data.(type) { case nil: return []eventReference{} case []string: newEvents := make([]eventReference, 0, len(evs)) for _, eventID := range evs { newEvents = append(newEvents, eventReference{EventID: eventID, EventSHA256: eventHashFromEventID(eventID)}) } return newEvents case []eventReference: return evs case []interface{}: evRefs := make([]eventReference, 0, len(evs)) for _, b := range evs { evID, ok := b.(string) if ok { evRefs = append(evRefs, eventReference{EventID: evID, EventSHA256: eventHashFromEventID(evID)}) continue } ev, ok := b.([]interface{}) if ok { evRefs = append(evRefs, eventReference{EventID: ev[0].(string), EventSHA256: eventHashFromEventID(ev[0].(string))}) continue } } return evRefs default: return []eventReference{} }"
+]
+
 def eventauth_AuthEvents_AddEvent : List String := [
   "func func(event PDU) error",
   "if event.StateKey() == nil {",
@@ -859,6 +965,385 @@ def eventauth_membershipAllower_membershipFailed : List String := [
   "return errorf(\"%q is not allowed to change the membership of %q from %q to %q as \"+format, append([]interface{}{m.senderID, m.targetID, m.oldMember.Membership, m.newMember.Membership}, args...)...)"
 ]
 
+def eventcontent_CreateContent_DomainAllowed : List String := [
+  "func func(domain string) error",
+  "if domain == c.senderDomain {",
+  "return nil",
+  "}",
+  "if c.Federate == nil || *c.Federate {",
+  "return nil",
+  "}",
+  "return errorf(\"room is unfederatable\")"
+]
+
+def eventcontent_CreateContent_UserIDAllowed : List String := [
+  "func func(id spec.UserID) error",
+  "return c.DomainAllowed(string(id.Domain()))"
+]
+
+def eventcontent_HistoryVisibility_Scan : List String := [
+  "func func(src interface{}) error",
+  "switch v := src.(type) { case int64: s, ok := hisVisIntToStringMapping[uint8(v)] if !ok { *h = HistoryVisibilityShared return nil } *h = s return nil case float64: s, ok := hisVisIntToStringMapping[uint8(v)] if !ok { *h = HistoryVisibilityShared return nil } *h = s return nil default: return fmt.Errorf(\"unknown source type: %T for HistoryVisibilty\", src) }"
+]
+
+def eventcontent_HistoryVisibility_Value : List String := [
+  "func func() (driver.Value, error)",
+  "v, ok := hisVisStringToIntMapping[h]",
+  "if !ok {",
+  "return int64(hisVisStringToIntMapping[HistoryVisibilityShared]), nil",
+  "}",
+  "return int64(v), nil"
+]
+
+def eventcontent_MXIDMapping_Sign : List String := [
+  "func func(serverName spec.ServerName, keyID KeyID, privateKey ed25519.PrivateKey) error",
+  "m.Signatures = nil",
+  "unsorted, err := json.Marshal(m)",
+  "if err != nil {",
+  "return err",
+  "}",
+  "canonical, err := CanonicalJSON(unsorted)",
+  "if err != nil {",
+  "return err",
+  "}",
+  "signature := spec.Base64Bytes(ed25519.Sign(privateKey, canonical))",
+  "if m.Signatures == nil {",
+  "m.Signatures = make(map[spec.ServerName]map[KeyID]spec.Base64Bytes)",
+  "}",
+  "if m.Signatures[serverName] == nil {",
+  "m.Signatures[serverName] = make(map[KeyID]spec.Base64Bytes)",
+  "}",
+  "m.Signatures[serverName][keyID] = signature",
+  "return nil"
+]
+
+def eventcontent_PowerLevelContent_Defaults : List String := [
+  "func func()",
+  "c.Invite = 0",
+  "c.Ban = 50",
+  "c.Kick = 50",
+  "c.Redact = 50",
+  "c.UsersDefault = 0",
+  "c.EventsDefault = 0",
+  "c.StateDefault = 50",
+  "c.Notifications = map[string]int64{\"room\": 50}"
+]
+
+def eventcontent_PowerLevelContent_EventLevel : List String := [
+  "func func(eventType string, isState bool) int64",
+  "if eventType == spec.MRoomThirdPartyInvite {",
+  "return c.Invite",
+  "}",
+  "level, ok := c.Events[eventType]",
+  "if ok {",
+  "return level",
+  "}",
+  "if isState {",
+  "return c.StateDefault",
+  "}",
+  "return c.EventsDefault"
+]
+
+def eventcontent_PowerLevelContent_NotificationLevel : List String := [
+  "func func(notification string) int64",
+  "level, ok := c.Notifications[notification]",
+  "if ok {",
+  "return level",
+  "}",
+  "return 50"
+]
+
+def eventcontent_PowerLevelContent_UserLevel : List String := [
+  "func func(senderID spec.SenderID) int64",
+  "level, ok := c.Users[string(senderID)]",
+  "if ok {",
+  "return level",
+  "}",
+  "return c.UsersDefault"
+]
+
+def eventcontent__CreatorsFromCreateEvent : List String := [
+  "func func(createEvent PDU) (creators []string)",
+  "creators = append(creators, string(createEvent.SenderID()))",
+  "var content CreateContent",
+  "err := json.Unmarshal(createEvent.Content(), &content)",
+  "if err != nil {",
+  "panic(\"invalid create event content: \" + string(createEvent.JSON()))",
+  "}",
+  "creators = append(creators, content.AdditionalCreators...)",
+  "return creators"
+]
+
+def eventcontent__NewCreateContentFromAuthEvents : List String := [
+  "func func(authEvents AuthEventProvider, userIDForSender spec.UserIDForSender) (c CreateContent, err error)",
+  "var createEvent PDU",
+  "if createEvent, err = authEvents.Create(); err != nil {",
+  "return",
+  "}",
+  "if createEvent == nil {",
+  "err = errorf(\"missing create event\")",
+  "return",
+  "}",
+  "if err = json.Unmarshal(createEvent.Content(), &c); err != nil {",
+  "err = errorf(\"unparseable create event content: %s\", err.Error())",
+  "return",
+  "}",
+  "c.roomID = createEvent.RoomID().String()",
+  "c.eventID = createEvent.EventID()",
+  "sender, err := userIDForSender(createEvent.RoomID(), createEvent.SenderID())",
+  "if err != nil {",
+  "err = errorf(\"invalid sender userID: %s\", err.Error())",
+  "return",
+  "}",
+  "if sender == nil {",
+  "err = errorf(\"userID not found for sender: %s in room %s\", createEvent.SenderID(), createEvent.RoomID().String())",
+  "return",
+  "}",
+  "c.senderDomain = string(sender.Domain())",
+  "return"
+]
+
+def eventcontent__NewJoinRuleContentFromAuthEvents : List String := [
+  "func func(authEvents AuthEventProvider) (c JoinRuleContent, err error)",
+  "c.JoinRule = spec.Invite",
+  "joinRulesEvent, err := authEvents.JoinRules()",
+  "if err != nil {",
+  "return",
+  "}",
+  "if joinRulesEvent == nil {",
+  "return",
+  "}",
+  "if err = json.Unmarshal(joinRulesEvent.Content(), &c); err != nil {",
+  "err = errorf(\"unparseable join_rules event content: %s\", err.Error())",
+  "return",
+  "}",
+  "return"
+]
+
+def eventcontent__NewMemberContentFromAuthEvents : List String := [
+  "func func(authEvents AuthEventProvider, senderID spec.SenderID) (c MemberContent, err error)",
+  "var memberEvent PDU",
+  "if memberEvent, err = authEvents.Member(senderID); err != nil {",
+  "return",
+  "}",
+  "if memberEvent == nil {",
+  "c.Membership = spec.Leave",
+  "return",
+  "}",
+  "return NewMemberContentFromEvent(memberEvent)"
+]
+
+def eventcontent__NewMemberContentFromEvent : List String := [
+  "func func(event PDU) (c MemberContent, err error)",
+  "if err = json.Unmarshal(event.Content(), &c); err != nil {",
+  "var partial membershipContent",
+  "if err = json.Unmarshal(event.Content(), &partial); err != nil {",
+  "err = errorf(\"unparseable member event content: %s\", err.Error())",
+  "return",
+  "}",
+  "c.Membership = partial.Membership",
+  "c.ThirdPartyInvite = partial.ThirdPartyInvite",
+  "c.AuthorisedVia = partial.AuthorizedVia",
+  "c.MXIDMapping = partial.MXIDMapping",
+  "}",
+  "return"
+]
+
+def eventcontent__NewPowerLevelContentFromAuthEvents : List String := [
+  "func func(authEvents AuthEventProvider, creatorUserID string) (c PowerLevelContent, err error)",
+  "powerLevelsEvent, err := authEvents.PowerLevels()",
+  "if err != nil {",
+  "return",
+  "}",
+  "if powerLevelsEvent != nil {",
+  "return NewPowerLevelContentFromEvent(powerLevelsEvent)",
+  "}",
+  "c.Defaults()",
+  "c.Users = map[string]int64{creatorUserID: 9007199254740991}",
+  "c.StateDefault = 50",
+  "return"
+]
+
+def eventcontent__NewPowerLevelContentFromEvent : List String := [
+  "func func(event PDU) (c PowerLevelContent, err error)",
+  "c.Defaults()",
+  "verImpl, err := GetRoomVersion(event.Version())",
+  "if err != nil {",
+  "return c, err",
+  "}",
+  "if err = verImpl.ParsePowerLevels(event.Content(), &c); err != nil {",
+  "err = errorf(\"unparseable power_levels event content: %s\", err.Error())",
+  "return",
+  "}",
+  "return"
+]
+
+def eventcontent__NewThirdPartyInviteContentFromAuthEvents : List String := [
+  "func func(authEvents AuthEventProvider, token string) (t ThirdPartyInviteContent, err error)",
+  "var thirdPartyInviteEvent PDU",
+  "if thirdPartyInviteEvent, err = authEvents.ThirdPartyInvite(token); err != nil {",
+  "return",
+  "}",
+  "if thirdPartyInviteEvent == nil {",
+  "err = errorf(\"Couldn't find third party invite event\")",
+  "return",
+  "}",
+  "if err = json.Unmarshal(thirdPartyInviteEvent.Content(), &t); err != nil {",
+  "err = errorf(\"unparseable third party invite event content: %s\", err.Error())",
+  "}",
+  "return"
+]
+
+def eventcontent__checkCreateEventV1 : List String := [
+  "func func(event PDU, sender spec.UserID, knownRoomVersion KnownRoomVersionFunc) error",
+  "if sender.Domain() != event.RoomID().Domain() {",
+  "return errorf(\"create event room ID domain does not match sender: %q != %q\", event.RoomID().Domain(), sender.String())",
+  "}",
+  "c := struct { Creator *string `json:\"creator\"` RoomVersion *RoomVersion `json:\"room_version\"` }{}",
+  "if err := json.Unmarshal(event.Content(), &c); err != nil {",
+  "return errorf(\"create event has invalid content: %s\", err.Error())",
+  "}",
+  "if c.Creator == nil {",
+  "return errorf(\"create event has no creator field\")",
+  "}",
+  "if c.RoomVersion != nil {",
+  "if !knownRoomVersion(*c.RoomVersion) {",
+  "return errorf(\"create event has unrecognised room version %q\", *c.RoomVersion)",
+  "}",
+  "}",
+  "return nil"
+]
+
+def eventcontent__checkCreateEventV2 : List String := [
+  "func func(event PDU, sender spec.UserID, knownRoomVersion KnownRoomVersionFunc) error",
+  "if sender.Domain() != event.RoomID().Domain() {",
+  "return errorf(\"create event room ID domain does not match sender: %q != %q\", event.RoomID().Domain(), sender.String())",
+  "}",
+  "c := struct { RoomVersion *RoomVersion `json:\"room_version\"` }{}",
+  "if err := json.Unmarshal(event.Content(), &c); err != nil {",
+  "return errorf(\"create event has invalid content: %s\", err.Error())",
+  "}",
+  "if c.RoomVersion != nil {",
+  "if !knownRoomVersion(*c.RoomVersion) {",
+  "return errorf(\"create event has unrecognised room version %q\", *c.RoomVersion)",
+  "}",
+  "}",
+  "return nil"
+]
+
+def eventcontent__checkCreateEventV3 : List String := [
+  "func func(event PDU, sender spec.UserID, knownRoomVersion KnownRoomVersionFunc) error",
+  "c := struct { RoomVersion *RoomVersion `json:\"room_version\"` AdditionalCreators []string `json:\"additional_creators\"` }{}",
+  "if err := json.Unmarshal(event.Content(), &c); err != nil {",
+  "return errorf(\"create event has invalid content: %s\", err.Error())",
+  "}",
+  "if c.RoomVersion != nil {",
+  "if !knownRoomVersion(*c.RoomVersion) {",
+  "return errorf(\"create event has unrecognised room version %q\", *c.RoomVersion)",
+  "}",
+  "}",
+  "if c.AdditionalCreators != nil {",
+  "for _, creator := range c.AdditionalCreators {",
+  "_, err := spec.NewUserID(creator, true)",
+  "if err != nil {",
+  "return errorf(\"additional creator '%s' invalid: %s\", creator, err)",
+  "}",
+  "}",
+  "}",
+  "ev := struct { RoomID string `json:\"room_id\"` }{}",
+  "if err := json.Unmarshal(event.JSON(), &ev); err != nil {",
+  "return errorf(\"create event cannot be valid json: %s\", err.Error())",
+  "}",
+  "if ev.RoomID != \"\" {",
+  "return errorf(\"create event must not have a room_id set\")",
+  "}",
+  "return nil"
+]
+
+def eventcontent__domainFromID : List String := [
+  "func func(id string) (string, error)",
+  "parts := strings.SplitN(id, \":\", 2)",
+  "if len(parts) != 2 {",
+  "return \"\", errorf(\"invalid ID: %q\", id)",
+  "}",
+  "return parts[1], nil"
+]
+
+def eventcontent__isValidUserID : List String := [
+  "func func(userID string) bool",
+  "return userID[0] == '@' && strings.IndexByte(userID, ':') != -1"
+]
+
+def eventcontent__parseIntegerPowerLevels : List String := [
+  "func func(contentBytes []byte, c *PowerLevelContent) error",
+  "return json.Unmarshal(contentBytes, c)"
+]
+
+def eventcontent__parsePowerLevels : List String := [
+  "func func(contentBytes []byte, c *PowerLevelContent) error",
+  "var content struct { InviteLevel levelJSONValue `json:\"invite\"` BanLevel levelJSONValue `json:\"ban\"` KickLevel levelJSONValue `json:\"kick\"` RedactLevel levelJSONValue `json:\"redact\"` UserLevels map[string]levelJSONValue `json:\"users\"` UsersDefaultLevel levelJSONValue `json:\"users_default\"` EventLevels map[string]levelJSONValue `json:\"events\"` StateDefaultLevel levelJSONValue `json:\"state_default\"` EventDefaultLevel levelJSONValue `json:\"events_default\"` NotificationLevels map[string]levelJSONValue `json:\"notifications\"` }",
+  "if err := json.Unmarshal(contentBytes, &content); err != nil {",
+  "return errorf(\"unparseable power_levels event content: %s\", err.Error())",
+  "}",
+  "content.InviteLevel.assignIfExists(&c.Invite)",
+  "content.BanLevel.assignIfExists(&c.Ban)",
+  "content.KickLevel.assignIfExists(&c.Kick)",
+  "content.RedactLevel.assignIfExists(&c.Redact)",
+  "content.UsersDefaultLevel.assignIfExists(&c.UsersDefault)",
+  "content.StateDefaultLevel.assignIfExists(&c.StateDefault)",
+  "content.EventDefaultLevel.assignIfExists(&c.EventsDefault)",
+  "for k, v := range content.UserLevels {",
+  "if c.Users == nil {",
+  "c.Users = make(map[string]int64)",
+  "}",
+  "c.Users[k] = v.value",
+  "}",
+  "for k, v := range content.EventLevels {",
+  "if c.Events == nil {",
+  "c.Events = make(map[string]int64)",
+  "}",
+  "c.Events[k] = v.value",
+  "}",
+  "for k, v := range content.NotificationLevels {",
+  "if c.Notifications == nil {",
+  "c.Notifications = make(map[string]int64)",
+  "}",
+  "c.Notifications[k] = v.value",
+  "}",
+  "return nil"
+]
+
+def eventcontent_levelJSONValue_UnmarshalJSON : List String := [
+  "func func(data []byte) error",
+  "var stringValue string",
+  "var int64Value int64",
+  "var floatValue float64",
+  "var err error",
+  "if int64Value, err = strconv.ParseInt(string(data), 10, 64); err != nil {",
+  "if err = json.Unmarshal(data, &stringValue); err != nil {",
+  "if floatValue, err = strconv.ParseFloat(string(data), 64); err != nil {",
+  "return err",
+  "}",
+  "int64Value = int64(floatValue)",
+  "} else {",
+  "int64Value, err = strconv.ParseInt(strings.TrimSpace(stringValue), 10, 64)",
+  "if err != nil {",
+  "return err",
+  "}",
+  "}",
+  "}",
+  "v.exists = true",
+  "v.value = int64Value",
+  "return nil"
+]
+
+def eventcontent_levelJSONValue_assignIfExists : List String := [
+  "func func(to *int64)",
+  "if v.exists {",
+  "*to = v.value",
+  "}"
+]
+
 def stateresolution_stateResolver_resolveAndAddAuthBlocks : List String := [
   "func func(blocks [][]PDU, userIDForSender spec.UserIDForSender)",
   "start := len(r.result)",
@@ -946,6 +1431,6 @@ def stateresolutionv2_stateResolverV2_authAndApplyEvents : List String := [
   "}"
 ]
 
-def functions : List String := ["eventauth.go:AuthEvents.AddEvent", "eventauth.go:AuthEvents.Clear", "eventauth.go:AuthEvents.Create", "eventauth.go:AuthEvents.JoinRules", "eventauth.go:AuthEvents.Member", "eventauth.go:AuthEvents.PowerLevels", "eventauth.go:AuthEvents.ThirdPartyInvite", "eventauth.go:AuthEvents.Valid", "eventauth.go:NotAllowed.Error", "eventauth.go:StateNeeded.AuthEventReferences", "eventauth.go:StateNeeded.Tuples", "eventauth.go:.Allowed", "eventauth.go:.NewAuthEvents", "eventauth.go:.StateNeededForAuth", "eventauth.go:.StateNeededForProtoEvent", "eventauth.go:.accumulateStateNeeded", "eventauth.go:.allowRestrictedJoins", "eventauth.go:.checkEventLevels", "eventauth.go:.checkKnocking", "eventauth.go:.checkPowerLevelEventV1", "eventauth.go:.checkPowerLevelEventV2", "eventauth.go:.checkPowerLevelEventV3", "eventauth.go:.checkUserLevels", "eventauth.go:.disallowKnocking", "eventauth.go:.disallowRestrictedJoins", "eventauth.go:.errorf", "eventauth.go:.newAllowerContext", "eventauth.go:.thirdPartyInviteToken", "eventauth.go:allowerContext.aliasEventAllowed", "eventauth.go:allowerContext.allowed", "eventauth.go:allowerContext.createEventAllowed", "eventauth.go:allowerContext.defaultEventAllowed", "eventauth.go:allowerContext.memberEventAllowed", "eventauth.go:allowerContext.newEventAllower", "eventauth.go:allowerContext.newMembershipAllower", "eventauth.go:allowerContext.powerLevelsEventAllowed", "eventauth.go:allowerContext.redactEventAllowed", "eventauth.go:allowerContext.resetCreate", "eventauth.go:allowerContext.update", "eventauth.go:allowerContext.userPowerLevel", "eventauth.go:eventAllower.commonChecks", "eventauth.go:membershipAllower.membershipAllowed", "eventauth.go:membershipAllower.membershipAllowedFromThirdPartyInvite", "eventauth.go:membershipAllower.membershipAllowedOther", "eventauth.go:membershipAllower.membershipAllowedSelf", "eventauth.go:membershipAllower.membershipAllowedSelfForRestrictedJoin", "eventauth.go:membershipAllower.membershipFailed", "stateresolution.go:stateResolver.resolveAndAddAuthBlocks", "stateresolution.go:stateResolver.resolveAuthBlock", "stateresolutionv2.go:stateResolverV2.authAndApplyEvents"]
+def functions : List String := ["event_builder.go:EventBuilder.AddAuthEvents", "event_builder.go:EventBuilder.Build", "event_builder.go:EventBuilder.SetContent", "event_builder.go:EventBuilder.SetUnsigned", "event_builder.go:.eventHashFromEventID", "event_builder.go:.toEventReference", "eventauth.go:AuthEvents.AddEvent", "eventauth.go:AuthEvents.Clear", "eventauth.go:AuthEvents.Create", "eventauth.go:AuthEvents.JoinRules", "eventauth.go:AuthEvents.Member", "eventauth.go:AuthEvents.PowerLevels", "eventauth.go:AuthEvents.ThirdPartyInvite", "eventauth.go:AuthEvents.Valid", "eventauth.go:NotAllowed.Error", "eventauth.go:StateNeeded.AuthEventReferences", "eventauth.go:StateNeeded.Tuples", "eventauth.go:.Allowed", "eventauth.go:.NewAuthEvents", "eventauth.go:.StateNeededForAuth", "eventauth.go:.StateNeededForProtoEvent", "eventauth.go:.accumulateStateNeeded", "eventauth.go:.allowRestrictedJoins", "eventauth.go:.checkEventLevels", "eventauth.go:.checkKnocking", "eventauth.go:.checkPowerLevelEventV1", "eventauth.go:.checkPowerLevelEventV2", "eventauth.go:.checkPowerLevelEventV3", "eventauth.go:.checkUserLevels", "eventauth.go:.disallowKnocking", "eventauth.go:.disallowRestrictedJoins", "eventauth.go:.errorf", "eventauth.go:.newAllowerContext", "eventauth.go:.thirdPartyInviteToken", "eventauth.go:allowerContext.aliasEventAllowed", "eventauth.go:allowerContext.allowed", "eventauth.go:allowerContext.createEventAllowed", "eventauth.go:allowerContext.defaultEventAllowed", "eventauth.go:allowerContext.memberEventAllowed", "eventauth.go:allowerContext.newEventAllower", "eventauth.go:allowerContext.newMembershipAllower", "eventauth.go:allowerContext.powerLevelsEventAllowed", "eventauth.go:allowerContext.redactEventAllowed", "eventauth.go:allowerContext.resetCreate", "eventauth.go:allowerContext.update", "eventauth.go:allowerContext.userPowerLevel", "eventauth.go:eventAllower.commonChecks", "eventauth.go:membershipAllower.membershipAllowed", "eventauth.go:membershipAllower.membershipAllowedFromThirdPartyInvite", "eventauth.go:membershipAllower.membershipAllowedOther", "eventauth.go:membershipAllower.membershipAllowedSelf", "eventauth.go:membershipAllower.membershipAllowedSelfForRestrictedJoin", "eventauth.go:membershipAllower.membershipFailed", "eventcontent.go:CreateContent.DomainAllowed", "eventcontent.go:CreateContent.UserIDAllowed", "eventcontent.go:HistoryVisibility.Scan", "eventcontent.go:HistoryVisibility.Value", "eventcontent.go:MXIDMapping.Sign", "eventcontent.go:PowerLevelContent.Defaults", "eventcontent.go:PowerLevelContent.EventLevel", "eventcontent.go:PowerLevelContent.NotificationLevel", "eventcontent.go:PowerLevelContent.UserLevel", "eventcontent.go:.CreatorsFromCreateEvent", "eventcontent.go:.NewCreateContentFromAuthEvents", "eventcontent.go:.NewJoinRuleContentFromAuthEvents", "eventcontent.go:.NewMemberContentFromAuthEvents", "eventcontent.go:.NewMemberContentFromEvent", "eventcontent.go:.NewPowerLevelContentFromAuthEvents", "eventcontent.go:.NewPowerLevelContentFromEvent", "eventcontent.go:.NewThirdPartyInviteContentFromAuthEvents", "eventcontent.go:.checkCreateEventV1", "eventcontent.go:.checkCreateEventV2", "eventcontent.go:.checkCreateEventV3", "eventcontent.go:.domainFromID", "eventcontent.go:.isValidUserID", "eventcontent.go:.parseIntegerPowerLevels", "eventcontent.go:.parsePowerLevels", "eventcontent.go:levelJSONValue.UnmarshalJSON", "eventcontent.go:levelJSONValue.assignIfExists", "stateresolution.go:stateResolver.resolveAndAddAuthBlocks", "stateresolution.go:stateResolver.resolveAuthBlock", "stateresolutionv2.go:stateResolverV2.authAndApplyEvents"]
 
 end VPins.C09
